@@ -566,4 +566,34 @@ Section Proofs2.
       assert (In' : In [i; j; k; l] (all_idx Ls 4)) by (apply all_idx_In; split; [reflexivity|repeat constructor; assumption]).
       apply Hk. apply (E4 _ In').
   Qed.
+
+  (* ---------------------------------------------------------------- executable (sparse, monomial) form *)
+  (** the non-zero coefficient entries, as FieldOperator.as_matrix visits them ([kz] = "== 0") *)
+  Definition entries_of (kz : K -> bool) (Ls : nat) (t : fterm K) : list (list nat * K) :=
+    map (fun idx => (idx, coef t idx))
+        (filter (fun idx => negb (kz (coef t idx))) (all_idx Ls (length (pat t)))).
+
+  Theorem fterm_matrix_sparse kz Ls (t : fterm K) r c :
+    (forall x : K, kz x = true -> x = 0) -> length r = Ls -> length c = Ls ->
+    fterm_matrix Ls t r c = sparse_term_entry (pat t) (entries_of kz Ls t) r c.
+  Proof.
+    intros Hz Hr Hc. unfold fterm_matrix, sparse_term_entry, entries_of.
+    rewrite map_map. cbn [fst snd].
+    rewrite <- (lsum_filter (fun idx => negb (kz (coef t idx)))
+                            (fun idx => coef t idx * mono_entry (combine (pat t) idx) r c)).
+    apply lsum_map_ext. intros idx _. rewrite opstring_mono by assumption.
+    destruct (kz (coef t idx)) eqn:E; cbn [negb]; [|reflexivity].
+    rewrite (Hz _ E). ring.
+  Qed.
+
+  Definition fop_matrix_sparse (kz : K -> bool) (Ls : nat) (ts : list (fterm K)) : BMx K :=
+    fun r c => lsum (map (fun t => sparse_term_entry (pat t) (entries_of kz Ls t) r c) ts).
+
+  Theorem fop_matrix_sparse_ok kz Ls ts r c :
+    (forall x : K, kz x = true -> x = 0) -> length r = Ls -> length c = Ls ->
+    fop_matrix Ls ts r c = fop_matrix_sparse kz Ls ts r c.
+  Proof.
+    intros Hz Hr Hc. unfold fop_matrix, fop_matrix_sparse. apply lsum_map_ext. intros t _.
+    apply fterm_matrix_sparse; assumption.
+  Qed.
 End Proofs2.
